@@ -51,6 +51,8 @@ def eval_nodes(roots, env):
         r = flush({"add": a + b, "sub": a - b, "mul": a * b}[op] if op != "div" else np.divide(a, b, dtype=F))
       elif op == "sqrt":
         r = flush(np.sqrt(flush(A[0]), dtype=F))
+      elif op == "rsqrt":
+        r = flush(F(1.0) / np.sqrt(flush(A[0]), dtype=F))     # approximate: the kernel's own rounding is not modelled
       elif op == "neg":
         r = F(-A[0])
       elif op == "abs":
@@ -105,8 +107,9 @@ def same(a, b):
 
 
 # ---------------------------------------------------------------------------
-def to_z3_real(roots, var_of=None, override=None):
+def to_z3_real(roots, var_of=None, override=None, side=None):
   """Real relaxation.  Returns (dict nid -> z3 expr, dict name -> z3 var).
+  side: optional list receiving the defining constraints of sqrt / rsqrt applications.
   override: {nid: z3 expr} - cut points whose sub-graphs are replaced by the given expressions."""
   import z3
   vars_ = {}
@@ -123,6 +126,15 @@ def to_z3_real(roots, var_of=None, override=None):
     return z3.If(fr < 0.5, fl, z3.If(fr > 0.5, fl + 1, z3.If(z3.ToInt(a) % 2 == 0, fl, fl + 1)))
 
   val = {}
+  roots_done = set()
+
+  def root(arg, aexpr):
+    r0 = var("rsqrt_of_%d" % arg.nid)
+    if arg.nid not in roots_done:
+      roots_done.add(arg.nid)
+      side.append(r0 > 0)
+      side.append(z3.Implies(aexpr > 0, r0 * r0 * aexpr == 1))
+    return r0
   for n in _topo(roots):
     op = n.op
     if n.nid in override:
@@ -144,9 +156,21 @@ def to_z3_real(roots, var_of=None, override=None):
     elif op == "add": r = A[0] + A[1]
     elif op == "sub": r = A[0] - A[1]
     elif op == "mul": r = A[0] * A[1]
-    elif op == "div": r = A[0] / A[1]
-    elif op == "sqrt":
-      r = var("sqrt_%d" % n.nid)
+    elif op == "div":
+      if side is not None and n.args[1].op == "sqrt":
+        r = A[0] * root(n.args[1].args[0], val[n.args[1].args[0].nid])      # x / sqrt(a) = x * rsqrt(a): keeps the query polynomial
+      else:
+        r = A[0] / A[1]
+    elif op in ("sqrt", "rsqrt"):
+      if side is None:
+        r = var("%s_%d" % (op, n.nid))
+      else:
+        # one positive unknown per radicand a: rsqrt(a) = r, sqrt(a) = 1/r, with r*r*a = 1 (for a > 0)
+        r0 = root(n.args[0], A[0])
+        r = r0 if op == "rsqrt" else 1 / r0
+    elif op == "uf":
+      f = z3.Function("uf_%s_%d" % n.attr, *([z3.RealSort()] * (len(A) + 1)))
+      r = f(*A)
     elif op == "neg": r = -A[0]
     elif op == "abs": r = z3.If(A[0] >= 0, A[0], -A[0])
     elif op == "round": r = rnd(A[0])
